@@ -65,6 +65,17 @@ async def _process_tick(self: Any, tick: Any) -> Any:
 
 _cl._ControlLoopRunner._process_tick = _process_tick  # type: ignore[method-assign]
 
+_orig_schedule_tick = _cl._ControlLoopRunner.schedule_tick
+
+
+def _schedule_tick(self, tick, at_time):  # type: ignore[no-untyped-def]  # noqa: ANN001
+    if _H is not None:
+        _H.scheduled_due[id(tick)] = (at_time, tick)  # observation only: when each wake-up was asked to fire
+    return _orig_schedule_tick(self, tick, at_time)
+
+
+_cl._ControlLoopRunner.schedule_tick = _schedule_tick  # type: ignore[method-assign]
+
 
 # --- monitor decorators ---------------------------------------------------------------
 class MonInternalAdapter(BaseInternalRunAdapterDecorator):
@@ -177,6 +188,7 @@ class Harness:
         self.actions_done = 0
         self.trace: list[str] = []
         self.pre_state: Any = None
+        self.scheduled_due: dict[int, tuple[float, Any]] = {}
         self.pre_runner: Any = None
 
     # -- body tracking
